@@ -58,7 +58,53 @@ def r3_values_first(rep, facts):
     rec = any(last_seg(c) in ('visit_table', 'visit_nested_tables') for n in calls_in(b['body']) for c in callee_all(n))
     rep.check(R, 'visit_table|values-only', len(gv) == 1 and body_loop and not rec, 'prints get_values() and does not recurse',
               'visit_table prints something other than the table\'s own values (or recurses into sub-tables between them)', facts.loc(b))
+    # get_values / append_values, decided on what they return for a table holding one entry of every kind (scalar, dotted and plain sub-table, dotted and
+    # plain inline table, array of tables, placeholder): scalars and plain inline tables under their own key, the content of dotted tables under the
+    # joined path, nothing else, in storage order.  The reading of the match arms below is the fallback when the functions cannot be evaluated.
+    from .den import FxInterp, Evaluator, Unanalysable, EvalPanic, VecObj
+    I, V = 'toml_edit::item::Item::', 'toml_edit::value::Value::'
+    key = lambda n: ('struct', 'toml_edit::key::Key', {'key': ('key', n), 'repr': ('opaque',), 'leaf_decor': ('opaque',), 'dotted_decor': ('opaque',)})
+    scal = lambda n: ('ctor', I + 'Value', (('ctor', V + 'Integer', (('elem', n),)),))
+    inl = lambda dotted, kids: ('struct', 'toml_edit::inline_table::InlineTable', {'items': kids, 'dotted': dotted, 'implicit': False, 'preamble': ('opaque',), 'decor': ('opaque',), 'span': ('opaque',)})
+    tab = lambda dotted, kids: ('struct', 'toml_edit::table::Table', {'items': kids, 'dotted': dotted, 'implicit': False, 'decor': ('opaque',), 'doc_position': ('opaque',), 'span': ('opaque',)})
+    items = ((key('a'), scal('a')), (key('dt'), ('ctor', I + 'Table', (tab(True, ((key('dt.x'), scal('dt.x')),)),))), (key('t'), ('ctor', I + 'Table', (tab(False, ((key('t.x'), scal('t.x')),)),))),
+             (key('di'), ('ctor', I + 'Value', (('ctor', V + 'InlineTable', (inl(True, ((key('di.x'), scal('di.x')),)),)),))),
+             (key('i'), ('ctor', I + 'Value', (('ctor', V + 'InlineTable', (inl(False, ((key('i.x'), scal('i.x')),)),)),))),
+             (key('aot'), ('ctor', I + 'ArrayOfTables', (('struct', 'toml_edit::array_of_tables::ArrayOfTables', {'values': ()}),))), (key('none'), ('ctor', I + 'None')), (key('z'), scal('z')))
+
+    def marks(x, out):
+        if isinstance(x, tuple):
+            if len(x) == 2 and x[0] in ('key', 'elem'):
+                out.append(x[1])
+                return out
+            for y in x:
+                marks(y, out)
+        elif isinstance(x, dict):
+            for y in x.values():
+                marks(y, out)
+        elif isinstance(x, VecObj):
+            for y in x.items:
+                marks(y, out)
+        return out
+    semantic = set()
+    for d, mk, want in (('toml_edit::table::Table', tab, [(['a'], 'Integer'), (['dt', 'dt.x'], 'Integer'), (['di', 'di.x'], 'Integer'), (['i'], 'InlineTable'), (['z'], 'Integer')]),
+                        ('toml_edit::inline_table::InlineTable', inl, [(['a'], 'Integer'), (['di', 'di.x'], 'Integer'), (['i'], 'InlineTable'), (['z'], 'Integer')])):
+        if not facts.has_body(d + '::get_values'):
+            continue
+        b = facts.body(d + '::get_values')
+        try:
+            r = FxInterp(Evaluator(facts)).apply_fn(b, [mk(False, items)])
+            rows = list(r.items) if isinstance(r, VecObj) else list(r)
+            got = [(marks(e[0], []), last_seg(e[1][1]) if isinstance(e[1], tuple) and len(e[1]) > 1 and isinstance(e[1][1], str) else '?') for e in rows]
+        except (Unanalysable, EvalPanic, TypeError, IndexError, KeyError) as ex:
+            rep.notes.append(f'{d}::get_values could not be evaluated ({ex}); append_values is read structurally.')
+            continue
+        semantic.add(d + '::append_values')
+        rep.check(R, d + '::append_values', got == want, f'{len(got)} (path, value) pairs for 8 entries of every kind',
+                  f'`{d}::get_values` of a table with one entry of every kind returns {got}, expected {want}: values and dotted-key tables only, under their paths, in storage order', facts.loc(b))
     for d, tbl_variant in (('toml_edit::table::Table::append_values', 'Item::Table'), ('toml_edit::inline_table::InlineTable::append_values', 'Value::InlineTable')):
+        if d in semantic:
+            continue
         b = facts.body(d)
         ms = [n for n in walk(b['body']) if n.get('k') == 'match' and n.get('src') == 'Normal']
         ok = False
